@@ -17,3 +17,148 @@ package requestmanager
 //@        let g := rm.maxLinksPerRequest :: let r := ipr.maxLinks ::
 //@        let eff := ite(g == 0, r, ite(r != 0 && r < g, r, g)) ::
 //@        (eff == 0 <==> self.Budget == nil) && (eff != 0 ==> self.Budget.LinkBudget == eff)
+
+//@ -- ============================ C09 / C04: the message handlers of the request manager ============================
+//@ -- Every step that has an effect on a request (hook call, message sent on its behalf, cancellation, delivery of
+//@ -- data or status) carries an OWNERSHIP precondition: the request exists and was sent to the peer the message
+//@ -- came from.  processResponses itself has no such precondition: its arguments are whatever a peer sent.
+//@ ghost closedErr set[ref]        -- result error channels that have been closed
+//@ ghost closedProg set[ref]       -- result progress channels that have been closed
+//@ onsend close:error(ch, v): requires !closedErr[ch] ; closedErr := add(closedErr, ch)
+//@ onsend close:graphsync.ResponseProgress(ch, v): requires !closedProg[ch] ; closedProg := add(closedProg, ch)
+
+//@ pred owned(rm *RequestManager, p peer.ID, id graphsync.RequestID) :=
+//@      id in rm.inProgressRequestStatuses && rm.inProgressRequestStatuses[id] != nil && rm.inProgressRequestStatuses[id].p == p
+//@ pred entryOK(ipr *inProgressRequestStatus) := ipr != nil && !closedErr[ipr.inProgressErr] && !closedProg[ipr.inProgressChan]
+//@ -- table invariant: every entry is live (its channels are open) and no two entries share a channel
+//@ pred invRM(rm *RequestManager) := rm.inProgressRequestStatuses != nil
+//@    && (forall id graphsync.RequestID :: id in rm.inProgressRequestStatuses ==> entryOK(rm.inProgressRequestStatuses[id]))
+//@    && (forall a graphsync.RequestID, b graphsync.RequestID :: a in rm.inProgressRequestStatuses && b in rm.inProgressRequestStatuses && a != b ==>
+//@           rm.inProgressRequestStatuses[a] != rm.inProgressRequestStatuses[b]
+//@           && rm.inProgressRequestStatuses[a].inProgressErr != rm.inProgressRequestStatuses[b].inProgressErr
+//@           && rm.inProgressRequestStatuses[a].inProgressChan != rm.inProgressRequestStatuses[b].inProgressChan)
+//@ -- nothing about any request other than id changed
+//@ pred othersUntouched(rm *RequestManager, id graphsync.RequestID) :=
+//@      (forall k graphsync.RequestID :: k != id ==> ((k in rm.inProgressRequestStatuses) <==> old(k in rm.inProgressRequestStatuses))
+//@           && rm.inProgressRequestStatuses[k] == old(rm.inProgressRequestStatuses[k]))
+//@   && (forall r *inProgressRequestStatus :: r != old(rm.inProgressRequestStatuses[id]) ==>
+//@           r.terminalError == old(r.terminalError) && r.state == old(r.state))
+
+//@ pred unchangedRM(rm *RequestManager) :=
+//@      (forall k graphsync.RequestID :: ((k in rm.inProgressRequestStatuses) <==> old(k in rm.inProgressRequestStatuses)) && rm.inProgressRequestStatuses[k] == old(rm.inProgressRequestStatuses[k]))
+//@   && (forall r *inProgressRequestStatus :: r.terminalError == old(r.terminalError) && r.state == old(r.state))
+//@ pred distinctIDs(rs []gsmsg.GraphSyncResponse) := forall j int, k int :: 0 <= j && j < k && k < len(rs) ==> rs[j].requestID != rs[k].requestID
+
+//@ func RequestManager.SendRequest
+//@   lenient
+//@   safety off
+//@   modifies alloc
+
+//@ -- C04: terminal error delivered (if any) before the channels are closed; each channel closed exactly once;
+//@ -- the entry is removed, so a second termination of the same request is impossible
+//@ func RequestManager.terminateRequest
+//@   lenient
+//@   requires invRM(rm) && requestID in rm.inProgressRequestStatuses && rm.inProgressRequestStatuses[requestID] == ipr
+//@   modifies rm.inProgressRequestStatuses[*], closedErr, closedProg, alloc
+//@   ensures invRM(rm) && !(requestID in rm.inProgressRequestStatuses) && othersUntouched(rm, requestID)
+//@   ensures ipr.terminalError == old(ipr.terminalError)
+
+//@ -- C04: the first terminal error wins; a request that is not running is terminated at once
+//@ func RequestManager.cancelOnError
+//@   lenient
+//@   requires invRM(rm) && requestID in rm.inProgressRequestStatuses && rm.inProgressRequestStatuses[requestID] == ipr
+//@   modifies ipr.terminalError, rm.inProgressRequestStatuses[*], closedErr, closedProg, alloc
+//@   ensures invRM(rm) && othersUntouched(rm, requestID)
+//@   ensures old(ipr.terminalError) != nil ==> ipr.terminalError == old(ipr.terminalError)
+//@   ensures old(ipr.terminalError) == nil ==> ipr.terminalError == terminalError
+//@   ensures old(ipr.state) != graphsync.Running ==> !(requestID in rm.inProgressRequestStatuses)
+//@   ensures old(ipr.state) == graphsync.Running ==> requestID in rm.inProgressRequestStatuses && rm.inProgressRequestStatuses[requestID] == ipr
+
+//@ -- C04: caller cancellation sends a cancel to the responder before cancelling locally
+//@ func RequestManager.cancelRequest
+//@   lenient
+//@   requires invRM(rm)
+//@   modifies inProgressRequestStatus.onTerminated, inProgressRequestStatus.terminalError, rm.inProgressRequestStatuses[*], closedErr, closedProg, alloc
+//@   ensures invRM(rm) && othersUntouched(rm, requestID)
+//@   callsite RequestManager.SendRequest: assert owned(rm, $p, request.id) && request.requestType == graphsync.RequestTypeCancel
+//@   callsite RequestManager.cancelOnError: assert $terminalError == terminalError
+
+//@ -- C09: responses are kept only if the request exists and was sent to the sending peer
+//@ func RequestManager.filterResponsesForPeer
+//@   requires invRM(rm)
+//@   modifies nothing
+//@   ensures forall j int :: 0 <= j && j < len(result) ==> owned(rm, p, result[j].requestID)
+//@   ensures forall j int :: 0 <= j && j < len(result) ==> (exists k int :: 0 <= k && k < len(responses) && result[j] == responses[k])
+//@   ensures distinctIDs(responses) ==> distinctIDs(result)
+//@   ensures forall k graphsync.RequestID, j int :: k in rm.inProgressRequestStatuses && rm.inProgressRequestStatuses[k].p != p && 0 <= j && j < len(result) ==> result[j].requestID != k
+//@   loop 1 invariant forall j int :: 0 <= j && j < len(responsesForPeer) ==> owned(rm, p, responsesForPeer[j].requestID)
+//@   loop 1 invariant forall j int :: 0 <= j && j < len(responsesForPeer) ==> (exists k int :: 0 <= k && k < idx1 && responsesForPeer[j] == responses[k])
+//@   loop 1 invariant distinctIDs(responses) ==> distinctIDs(responsesForPeer)
+
+//@ -- C09: hooks, update messages and cancellation on hook error only for a response whose request belongs to p
+//@ func RequestManager.processExtensionsForResponse
+//@   lenient
+//@   requires invRM(rm)
+//@   modifies inProgressRequestStatus.terminalError, rm.inProgressRequestStatuses[*], closedErr, closedProg, alloc
+//@   ensures invRM(rm) && othersUntouched(rm, response.requestID)
+//@   ensures !old(owned(rm, p, response.requestID)) ==> !result && unchangedRM(rm)
+//@   callsite ResponseHooks.ProcessResponseHooks: assert owned(rm, p, response.requestID)
+//@   callsite RequestManager.SendRequest: assert owned(rm, $p, request.id)
+//@   callsite RequestManager.cancelOnError: assert owned(rm, p, requestID)
+
+//@ func RequestManager.processExtensions
+//@   requires invRM(rm)
+//@   modifies inProgressRequestStatus.terminalError, rm.inProgressRequestStatuses[*], closedErr, closedProg, alloc
+//@   ensures invRM(rm)
+//@   -- what remains is a sub-list of the input
+//@   ensures forall j int :: 0 <= j && j < len(result) ==> (exists k int :: 0 <= k && k < len(responses) && result[j] == responses[k])
+//@   ensures distinctIDs(responses) ==> distinctIDs(result)
+//@   -- requests of other peers are untouched
+//@   ensures forall k graphsync.RequestID :: old(k in rm.inProgressRequestStatuses) && old(rm.inProgressRequestStatuses[k].p) != p ==>
+//@              k in rm.inProgressRequestStatuses && rm.inProgressRequestStatuses[k] == old(rm.inProgressRequestStatuses[k])
+//@              && rm.inProgressRequestStatuses[k].terminalError == old(rm.inProgressRequestStatuses[k].terminalError)
+//@   loop 1 invariant invRM(rm)
+//@   loop 1 invariant forall j int :: 0 <= j && j < len(remainingResponses) ==> (exists k int :: 0 <= k && k < idx1 && remainingResponses[j] == responses[k])
+//@   loop 1 invariant distinctIDs(responses) ==> distinctIDs(remainingResponses)
+//@   loop 1 invariant forall k graphsync.RequestID :: old(k in rm.inProgressRequestStatuses) && old(rm.inProgressRequestStatuses[k].p) != p ==>
+//@              k in rm.inProgressRequestStatuses && rm.inProgressRequestStatuses[k] == old(rm.inProgressRequestStatuses[k])
+//@              && rm.inProgressRequestStatuses[k].terminalError == old(rm.inProgressRequestStatuses[k].terminalError)
+
+//@ func RequestManager.updateLastResponses
+//@   lenient
+//@   requires invRM(rm) && (forall j int :: 0 <= j && j < len(responses) ==> responses[j].requestID in rm.inProgressRequestStatuses)
+//@   modifies alloc
+
+//@ -- C04/C09: a failure status cancels only the request it names; that request must belong to the sender
+//@ func RequestManager.processTerminations
+//@   lenient
+//@   requires invRM(rm)
+//@   requires forall j int :: 0 <= j && j < len(responses) ==> responses[j].requestID in rm.inProgressRequestStatuses
+//@   requires distinctIDs(responses)
+//@   modifies inProgressRequestStatus.terminalError, rm.inProgressRequestStatuses[*], closedErr, closedProg, alloc
+//@   ensures invRM(rm)
+//@   ensures forall k graphsync.RequestID :: (forall j int :: 0 <= j && j < len(responses) ==> responses[j].requestID != k) ==>
+//@              ((k in rm.inProgressRequestStatuses) <==> old(k in rm.inProgressRequestStatuses)) && rm.inProgressRequestStatuses[k] == old(rm.inProgressRequestStatuses[k])
+//@   ensures forall r *inProgressRequestStatus :: (forall j int :: 0 <= j && j < len(responses) ==> r != old(rm.inProgressRequestStatuses[responses[j].requestID])) ==>
+//@              r.terminalError == old(r.terminalError)
+//@   loop 1 invariant forall r *inProgressRequestStatus :: (forall j int :: 0 <= j && j < len(responses) ==> r != old(rm.inProgressRequestStatuses[responses[j].requestID])) ==>
+//@              r.terminalError == old(r.terminalError)
+//@   loop 1 invariant invRM(rm)
+//@   loop 1 invariant forall j int :: idx1 <= j && j < len(responses) ==> responses[j].requestID in rm.inProgressRequestStatuses
+//@              && rm.inProgressRequestStatuses[responses[j].requestID] == old(rm.inProgressRequestStatuses[responses[j].requestID])
+//@   loop 1 invariant forall k graphsync.RequestID :: (forall j int :: 0 <= j && j < len(responses) ==> responses[j].requestID != k) ==>
+//@              ((k in rm.inProgressRequestStatuses) <==> old(k in rm.inProgressRequestStatuses)) && rm.inProgressRequestStatuses[k] == old(rm.inProgressRequestStatuses[k])
+
+//@ -- C09 (top level): whatever responses and blocks peer p sends, every step with an effect on a request (status
+//@ -- update, data delivery, termination) is applied only to requests that were sent to p.  The hook / update /
+//@ -- cancel-on-hook-error steps are guarded inside processExtensionsForResponse; "requests of other peers are
+//@ -- untouched" is the postcondition of processExtensions and processTerminations.
+//@ func RequestManager.processResponses
+//@   lenient
+//@   requires invRM(rm) && distinctIDs(responses)
+//@   modifies inProgressRequestStatus.terminalError, rm.inProgressRequestStatuses[*], closedErr, closedProg, alloc
+//@   ensures invRM(rm)
+//@   callsite RequestManager.updateLastResponses: assert forall j int :: 0 <= j && j < len($responses) ==> owned(rm, p, $responses[j].requestID)
+//@   callsite ReconciledLoader.IngestResponse: assert owned(rm, p, response.requestID)
+//@   callsite RequestManager.processTerminations: assert forall j int :: 0 <= j && j < len($responses) ==> owned(rm, p, $responses[j].requestID)
+//@   loop 3 invariant forall j int :: 0 <= j && j < len(filteredResponses) ==> owned(rm, p, filteredResponses[j].requestID)
